@@ -55,9 +55,19 @@ func Run(d *fw.Driver, res *fw.Result, seed int64, thorough bool) error {
 	}
 	for rep := 0; rep < reps; rep++ {
 		for _, transport := range []string{"ws", "http"} {
-			for kind := 0; kind <= 5; kind++ {
+			kinds := []int{0, 1, 2, 3, 4, 5, 6, 7, 8, 9, 10, 11}
+			if transport == "ws" {
+				kinds = append(kinds, 102, 100, 106) // the handler panics after its caller cancelled
+			}
+			for _, kind := range kinds {
 				for _, callKind := range []string{"unary", "notify", "chan"} {
+					if kind >= 100 && callKind == "notify" {
+						continue
+					}
 					for _, concurrent := range []int{0, 3} {
+						if (kind > 5) && concurrent == 3 && !thorough && callKind != "unary" {
+							continue
+						}
 						if !child.Alive() {
 							res.Add(fw.Finding{Kind: "monitor", Signature: "process died", Detail: "the server process died: " + child.CrashInfo()})
 							return nil
@@ -147,27 +157,47 @@ func one(d *fw.Driver, res *fw.Result, child *victim.Child, url, httpURL, transp
 	mm := model.(map[string]interface{})
 
 	var callErr error
-	switch callKind {
-	case "unary":
-		_, callErr = vc.Panic(ctx, kind)
-	case "notify":
-		vc.PanicNotify(ctx, kind)
-	case "chan":
-		var ch <-chan int
-		ch, callErr = vc.PanicSub(ctx, kind)
-		if callErr == nil && ch != nil {
-			callErr = errors.New("no error")
+	cctx, ccancel := context.WithCancel(ctx)
+	defer ccancel()
+	if kind >= 100 {
+		// cancel once the request is on its way: the handler is then (or soon) waiting for exactly that
+		go func() { time.Sleep(30 * time.Millisecond); ccancel() }()
+	}
+	returned := make(chan struct{})
+	go func() {
+		defer close(returned)
+		switch callKind {
+		case "unary":
+			_, callErr = vc.Panic(cctx, kind)
+		case "notify":
+			vc.PanicNotify(cctx, kind)
+		case "chan":
+			var ch <-chan int
+			ch, callErr = vc.PanicSub(cctx, kind)
+			if callErr == nil && ch != nil {
+				callErr = errors.New("no error")
+			}
 		}
+	}()
+	hung := false
+	select {
+	case <-returned:
+	case <-time.After(8 * time.Second):
+		hung = true
 	}
 	wg.Wait()
 	mon := ""
+	if hung {
+		mon = "the caller of the panicking handler never got an answer (8 s)"
+		callErr = errors.New("(no answer)")
+	}
 	select {
 	case e := <-siblingErr:
 		mon = "a concurrent healthy call was disturbed: " + e
 	default:
 	}
 	time.Sleep(time.Millisecond)
-	if !child.Alive() {
+	if !child.Alive() && mon == "" {
 		mon = "the server process died: " + child.CrashInfo()
 	}
 	// subsequent call on the same client and on another connection
